@@ -184,7 +184,9 @@ def run(pid, tier, seed):
 
     with vlib.Lock("build"):
         import gen
-        gerr = gen.regenerate()
+        # translator plugins: detector-only properties need the board and map tables only
+        plugins = cfg.get("gen_plugins", ["maps"] if cfg["harness"] == "det" else None)
+        gerr = gen.regenerate(plugins)
         if gerr:
             notes.append("translator: " + gerr)
         coq = vlib.coq_build_prop(pid, timeout=3000, allowed_axioms=cfg["axioms"])
